@@ -251,7 +251,21 @@ func renderStyles(r *core.Rand, doc any) ([]byte, string) {
 	if err != nil {
 		return nil, "unrenderable"
 	}
-	return respellInts(r, b), "yaml-block"
+	return unquoteNumericKeys(r, respellInts(r, b)), "yaml-block"
+}
+
+var quotedNumericKeyRE = regexp.MustCompile(`(?m)^(\s*(?:- )?)"(0x[0-9A-Fa-f]+|0o[0-7]+|[0-9]+)":`)
+
+// unquoteNumericKeys: some quoted keys that spell an integer are written plain, so the document has integer
+// keys (decimal, hex, octal; up to and beyond the int64 / uint64 boundaries), which the decoder canonicalises.
+func unquoteNumericKeys(r *core.Rand, b []byte) []byte {
+	return quotedNumericKeyRE.ReplaceAllFunc(b, func(m []byte) []byte {
+		if r.Intn(2) == 0 {
+			return m
+		}
+		sub := quotedNumericKeyRE.FindSubmatch(m)
+		return []byte(string(sub[1]) + string(sub[2]) + ":")
+	})
 }
 
 var plainIntRE = regexp.MustCompile(`(?m)(: |- )([1-9][0-9]{0,5})$`)
@@ -514,6 +528,37 @@ func c03Oracle(c *ctx, desc map[string]any, typed pipeline.Steps, inSteps, outSt
 	}
 }
 
+// c03MatrixLegs: walks the JSON and YAML views of a marshalled step list in parallel (groups recursively) and
+// compares the `matrix` of each mapping step, every mapping level sorted.
+func c03MatrixLegs(c *ctx, desc map[string]any, jSteps, ySteps any) {
+	jl, ok1 := jSteps.([]any)
+	yl, ok2 := ySteps.([]any)
+	if !ok1 || !ok2 || len(jl) != len(yl) {
+		return
+	}
+	for i := range jl {
+		jm, ok1 := jl[i].(vl.OMap)
+		ym, ok2 := yl[i].(vl.OMap)
+		if !ok1 || !ok2 {
+			continue
+		}
+		if jx, ok := findKV(jm, "matrix"); ok {
+			if _, isCmd := findKV(jm, "command"); isCmd {
+				yx, _ := findKV(ym, "matrix")
+				c.res.OracleChecks++
+				if a, b := vl.Enc(sortAllMaps(jsonViewGo(yx))), vl.Enc(sortAllMaps(jsonViewGo(jx))); a != b { // (timestamps and integral floats as JSON carries them)
+					c.res.Fail(core.OracleFailure{What: fmt.Sprintf("the matrix of step %d has another shape in the YAML marshalling than in the JSON marshalling", i+1), Input: desc, Got: a, Want: b})
+				}
+			}
+		}
+		if _, isGroup := findKV(jm, "group"); isGroup {
+			js, _ := findKV(jm, "steps")
+			ys, _ := findKV(ym, "steps")
+			c03MatrixLegs(c, desc, js, ys)
+		}
+	}
+}
+
 // sortedView: values of unknown keys of typed steps live in Go maps only at the first level; nested
 // ordered maps keep their order, so only the top level of such a value may be re-sorted.
 func sortedView(v any) any { return v }
@@ -576,7 +621,12 @@ func runParse(c *ctx, prop string) error {
 		if src == nil {
 			continue
 		}
-		tree, terr := decodeTree(src)
+		var tree any
+		var terr error
+		if pn, msg := guard(func() { tree, terr = decodeTree(src) }); pn {
+			// the first stage of Parse (ordered.DecodeYAML) is called directly here; a panic in it is a panic of Parse
+			terr = fmt.Errorf("DecodeYAML panicked: %s", msg)
+		}
 		desc := map[string]any{"document": string(src), "style": style}
 		var p *pipeline.Pipeline
 		var perr error
@@ -701,6 +751,15 @@ func runParse(c *ctx, prop string) error {
 			}
 			outSteps, _ := findKV(dump.Any(jtree).(vl.OMap), "steps")
 			c03Oracle(c, desc, p.Steps, inSteps, outSteps)
+			// the canonical shapes are those of the marshalled pipeline in either output format: the matrix of every
+			// command step has the same shape in the YAML marshalling as in the JSON one (an adjustment's empty-ish
+			// skip is the one recorded difference between the legs, finding F11)
+			if !yamlLegExcluded(dump.Pipeline(p)) && !hasMergeLookalike(treeV) && !hasEmptyishSkip(treeV) {
+				if ytree, yterr := decodeTree(yb); yterr == nil {
+					ySteps, _ := findKV(dump.Any(ytree).(vl.OMap), "steps")
+					c03MatrixLegs(c, desc, outSteps, ySteps)
+				}
+			}
 			// top-level keys the library does not model are kept, same value, whatever else the document holds
 			// (warnings from steps included)
 			if m, ok := treeV.(vl.OMap); ok {
